@@ -85,10 +85,9 @@ class Ctx:
                 if 'OUTSIDE-MODEL' in a and os.environ.get('VERIF_ALLOW_OUTSIDE'):
                     self.count('outside-model-skipped')
                     continue
-                if 'OUTSIDE-MODEL' in a and not self.model_partial:
-                    # the harness generated an input the model does not cover: a harness bug, not
-                    # a finding about pyais
-                    raise Infra('generator produced an input outside the modelled domain: %s' % l[:300])
+                # ('OUTSIDE-MODEL' without a declared partial model: the model regenerated from this source tree does
+                # not cover an input of the property's domain - e.g. a tabulated converter that is asked for a value
+                # outside its table.  The correspondence is not established for it: recorded like any disagreement.)
                 self.disagreements.append({'command': label, 'line': l, 'model': a, 'impl': b})
         if len(self.samples) < 4:
             self.sample({'op': lines[0][:400], 'model': model_out[0][:400], 'impl': impl_out[0][:400]})
